@@ -4,3 +4,29 @@
 -/
 import D42.Props.C06Containers
 import D42.Props.ReprProg
+
+namespace D42
+open CP RP
+
+/-- the text printed by the print program AS EXTRACTED FROM THE SOURCE is exactly the rendering of the calls whose replay
+    through the declaration model rebuilds the schema (`reprScalar_eq_extracted` composed with `reprScalar_eq_calls`), for
+    every scalar schema -/
+theorem extracted_print_eq_calls (k : ScalarS) :
+    flattenToks (runRepr (viewScalar k) (reprProgOf k))
+      = flattenToks (.t (facadeName k) :: (scalarCalls k).flatMap opToks) := by
+  rw [← reprScalar_eq_extracted]
+  exact reprScalar_eq_calls k
+
+/-- and for every schema reachable through declaration calls, replaying those printed calls gives the schema back, which
+    prints the same text again under the extracted program -/
+theorem extracted_print_roundtrip (k k' : ScalarS) (ops : List Op) (hreach : runScalar (freshOf k) ops = .ok k)
+    (h : runScalar (freshOf k) (scalarCalls k) = .ok k') :
+    k' = k ∧ runRepr (viewScalar k') (reprProgOf k') = runRepr (viewScalar k) (reprProgOf k) := by
+  have hk : k' = k := by
+    have := repr_scalar_roundtrip k ops hreach
+    rw [this] at h
+    exact (Except.ok.inj h).symm
+  subst hk
+  exact ⟨rfl, rfl⟩
+
+end D42
